@@ -9,7 +9,7 @@ PID = "C14"
 LEVEL = "proof"
 MODULE = "Sigc.Props.C14"
 EXTRA_MODULES = ("Sigc.Props.Refine", "Sigc.Props.SpecK", "Sigc.Props.SpecProps",)   # refinement P ⊑ S', S' ≡ S on runs clear of the known findings, the statements read off S
-REQUIRED = ["Sigc.Refine.refines", "Sigc.SpecK.model_refines_pure_spec"]
+REQUIRED = ["Sigc.C14.functor_owned_handle_keeps_list", "Sigc.C14.collect_drops_unheld_owned_handle_wf", "Sigc.C14.run_leaves_owned_handles_held", "Sigc.C14.delG_cases", "Sigc.Refine.refines", "Sigc.SpecK.model_refines_pure_spec"]
 TRUSTED = rt.TRUSTED_RT
 ASSUMPTIONS = rt.ASSUMPTIONS_RT + []
 PARTIAL = []
@@ -19,10 +19,10 @@ N_THOROUGH = 15000
 EXPLANATION = ''
 
 def profiles(thorough):
-    p = Profile(nT=2, nS=2, nG=5, nC=8, nK=2, specs={"fn": 5, "trk": 2, "mem": 1}, body_prob=0.3,
+    p = Profile(nT=2, nS=2, nG=5, nC=8, nK=2, specs={"fn": 5, "trk": 2, "mem": 1, "ownG": 3}, body_prob=0.3,
                 len=(15, 60 if not thorough else 150),
                 w={"newG": 6, "cpG": 8, "mvG": 6, "asgG": 7, "masgG": 6, "delG": 6, "connfn": 10, "emit": 8, "disc": 4, "size?": 8,
-                   "emptyG?": 3, "blockedG?": 2, "blockG": 2, "connected?": 6, "clear": 1, "live?": 3},
+                   "emptyG?": 3, "blockedG?": 2, "blockG": 2, "connected?": 6, "clear": 3, "live?": 3},
                 bw={"delG": 5, "asgG": 3, "masgG": 3, "cpG": 2, "mvG": 2, "disc": 3, "throw": 0})
     return [p]
 
